@@ -617,7 +617,7 @@ class LocalConcurrences:
                     x += 1
                     y += 1
                     if not self.compact:
-                        if len(wp.mask.shape) > 0 and wp.mask[x, y] is True:  # True means invalid
+                        if len(wp.mask.shape) > 0 and wp.mask[x, y]:  # True means invalid
                             # print('found path contains masked, restart')
                             lcm = None
                             idx = None
